@@ -21,6 +21,14 @@ mod prefix_string;
 #[cfg(test)]
 mod tests;
 
+#[cfg(feature = "verif-hooks")]
+pub mod verif {
+    //! Re-export of the stateful (dynamic table) QPACK encoder and decoder for external harnesses.
+    pub use super::decoder::{ack_header, stream_canceled, Decoder};
+    pub use super::dynamic::DynamicTable;
+    pub use super::encoder::{set_dynamic_table_size, Encoder};
+}
+
 #[derive(Debug)]
 pub enum Error {
     Encoder(EncoderError),
